@@ -793,15 +793,31 @@ class ModelSpecs(Structured[ModelSpec]):
                 data, context=context, **(materializer_params or {})
             ).get_model_matrix(self, drop_rows=drop_rows)
 
-        return cast(
-            ModelMatrices,
-            self._map(
-                lambda model_spec: model_spec.get_model_matrix(
-                    data, context=context, drop_rows=drop_rows
+        # The specs cannot share a materializer, but they must still share the
+        # rows that are dropped: every spec is generated with one and the same
+        # drop set. The rows with nulls are only known once every spec has
+        # been generated, so if the set grew along the way all specs are
+        # generated again with the complete set (factor evaluation does not
+        # depend on the drop set, so it cannot grow a second time).
+        if drop_rows is None:
+            drop_rows = set()
+
+        def generate() -> ModelMatrices:
+            return cast(
+                ModelMatrices,
+                self._map(
+                    lambda model_spec: model_spec.get_model_matrix(
+                        data, context=context, drop_rows=drop_rows
+                    ),
+                    as_type=ModelMatrices,
                 ),
-                as_type=ModelMatrices,
-            ),
-        )
+            )
+
+        n_dropped = len(drop_rows)
+        model_matrices = generate()
+        if len(drop_rows) != n_dropped:
+            model_matrices = generate()
+        return model_matrices
 
     def subset(self, terms_spec: FormulaSpec) -> ModelSpecs:
         """
